@@ -96,16 +96,30 @@ Theorem C06_family_outcome : forall f n, 0 <= n ->
 Proof. exact family_outcome_spec. Qed.
 Print Assumptions C06_family_outcome.
 
-(* termination in reasonable time: nested call statements f(function() ... end) are parsed with work
-   that at least doubles per level in the grammar as it is (`Assign / call` both parse the complete
-   call prefix) - the linear expectation is refuted, the exponential lower bound is proved *)
-Theorem C06_parse_work_linear_refuted : ~ parse_work_linear.
-Proof. exact parse_work_linear_refuted. Qed.
-Print Assumptions C06_parse_work_linear_refuted.
+(* termination in reasonable time.  work k n = 1 + k * work k (n-1) is the parse work of n nested levels
+   when k alternatives/lookaheads parse the nested part completely (Model2.v); work_linear w says
+   w n <= 2n + 1.  Call statements f(function() ... end): linear since /repo 0a3ab95 ... *)
+Theorem C06_parse_work_call_linear : work_linear parse_work_call.
+Proof. exact parse_work_call_linear. Qed.
+Print Assumptions C06_parse_work_call_linear.
 
-Theorem C06_parse_work_partial : forall n, 2 ^ Z.of_nat n <= parse_work n.
-Proof. exact parse_work_doubles. Qed.
-Print Assumptions C06_parse_work_partial.
+(* ... but two shapes still double per level in the grammar as it is: nested macro calls m!(m!(...))
+   (ppcallprim's `&callsuffix`) ... *)
+Theorem C06_parse_work_macro_refuted : ~ work_linear parse_work_macro.
+Proof. exact parse_work_macro_refuted. Qed.
+Print Assumptions C06_parse_work_macro_refuted.
+Theorem C06_parse_work_macro_partial : forall n, 2 ^ Z.of_nat n <= parse_work_macro n.
+Proof. exact parse_work_macro_doubles. Qed.
+Print Assumptions C06_parse_work_macro_partial.
+
+(* ... and assignments to a field of a call result, f(function() ... end).x = 1 (a side effect of the
+   order `call !(..) / Assign / call`; linear before 0a3ab95) *)
+Theorem C06_parse_work_assign_callidx_refuted : ~ work_linear parse_work_assign_callidx.
+Proof. exact parse_work_assign_callidx_refuted. Qed.
+Print Assumptions C06_parse_work_assign_callidx_refuted.
+Theorem C06_parse_work_assign_callidx_partial : forall n, 2 ^ Z.of_nat n <= parse_work_assign_callidx n.
+Proof. exact parse_work_assign_callidx_doubles. Qed.
+Print Assumptions C06_parse_work_assign_callidx_partial.
 
 (* the diagnostic errorer.get_pretty_source_pos_errmsg builds (no colours): name ':' line ':' col
    ': syntax error: ' message, the source line, the caret line.  line and col are printed as
